@@ -74,14 +74,14 @@ def mro_cli(ctx, clines, env):
             try:
                 p = subprocess.run([exe, sub, path], env=e2, stdout=subprocess.PIPE, stderr=subprocess.PIPE, timeout=20, cwd=mropath)
             except subprocess.TimeoutExpired:
-                ctx.fail("mro_%s_hangs" % sub, "no exit after 20 s", {"case": c[:6000], "input_text": case_text(c)[:3000], "how": "mro %s <file> with MROPATH=<dir of the file>" % sub})
+                ctx.fail("mro_%s_hangs" % sub, "no exit after 20 s", {"case": c[:600000], "input_text": case_text(c)[:3000], "how": "mro %s <file> with MROPATH=<dir of the file>" % sub})
                 continue
             runs += 1
             err = p.stderr.decode("utf-8", "replace")
             if p.returncode not in (0, 1) or "panic:" in err or "fatal error:" in err or "goroutine " in err:
                 first = [l for l in err.splitlines() if l.startswith("panic:") or l.startswith("fatal error:")]
                 ctx.fail("mro_%s_crashes" % sub, "exit %d %s" % (p.returncode, (first or [err[:200]])[0]),
-                         {"case": c[:6000], "input_text": case_text(c)[:3000], "observed": err[:1500], "how": "mro %s <file> with MROPATH=<dir of the file>" % sub})
+                         {"case": c[:600000], "input_text": case_text(c)[:3000], "observed": err[:1500], "how": "mro %s <file> with MROPATH=<dir of the file>" % sub})
     return runs
 
 
@@ -187,7 +187,7 @@ def check(ctx, args):
             n_fail += 1
             f = (o.split(" ", 2) + ["", ""])[:3]
             fail_classes[f[1]] = fail_classes.get(f[1], 0) + 1
-            ctx.fail(f[1], f[2][:400], {"case": c[:6000], "input_text": case_text(c)[:3000], "observed": f[2][:2000],
+            ctx.fail(f[1], f[2][:400], {"case": c[:600000], "input_text": case_text(c)[:3000], "observed": f[2][:2000],
                                          "how": "vh c08 oracle: every entry point (UncheckedParse, ParseSourceBytes, FormatSrcBytes, ParseValExp, Compile) under recover, a timeout and a child process; token converters on the lexer's own tokens; scaling at sizes n and 8n. Case line format: see harness/cmd/vh/c08.go"})
         else:
             n_skip += 1
